@@ -3,6 +3,8 @@ use crate::report::Report;
 pub mod c01;
 pub mod c04;
 pub mod c09;
+pub mod c10;
+pub mod c14;
 pub mod c15;
 
 type RunFn = fn(&Report);
@@ -11,6 +13,8 @@ pub const CHECKS: &[(&str, &str, RunFn)] = &[
     ("C01", "fault_enumeration", c01::run),
     ("C04", "exploration", c04::run),
     ("C09", "exploration", c09::run),
+    ("C10", "exploration", c10::run),
+    ("C14", "exploration", c14::run),
     ("C15", "exploration", c15::run),
 ];
 
